@@ -523,6 +523,10 @@ func c17FailClosed(c *Ctx, reg *guardedGlobal) {
 		if namedCall == nil {
 			r.Check("R17.4", FuncName(fn), "looks the name up with decoration.Named", fn.Pos(), false, "no call to Named")
 		} else {
+			if nc, isCall := namedCall.(*ssa.Call); isCall && len(nc.Call.Args) == 1 && len(fn.Params) >= 2 {
+				r.Check("R17.4", FuncName(fn), "decoration.Named is asked for the name exactly as given", nc.Pos(), nc.Call.Args[0] == ssa.Value(fn.Params[1]),
+					"the name is transformed before the lookup: a decoration registered (and listed) under another spelling can never be selected, or an unregistered spelling resolves")
+			}
 			var st *ssa.Store
 			eachInstr(fn, func(in ssa.Instruction) {
 				if s, ok := in.(*ssa.Store); ok {
